@@ -587,10 +587,7 @@ class XsdGlobals(XsdValidator, Collection[SchemaType]):
         identities = self.identities.copy()
         built = self._built
 
-        try:
-            yield self
-        except BaseException as err:
-            # Restore the maps also if interrupted by a non-library exception
+        def restore() -> None:
             self.clear()
             self._schemas.clear()
             self.namespaces.clear()
@@ -600,6 +597,16 @@ class XsdGlobals(XsdValidator, Collection[SchemaType]):
             self.substitution_groups.update(substitution_groups)
             self.identities.update(identities)
             self._built = built
+
+        try:
+            yield self
+        except BaseException as err:
+            # Restore the maps also if interrupted by a non-library exception
+            try:
+                restore()
+            except BaseException:
+                restore()  # interrupted (e.g. by a KeyboardInterrupt): complete the restore
+                raise
             if reraise or not isinstance(err, XMLSchemaException):
                 raise
 
